@@ -931,6 +931,40 @@ func runC08(r *Run) {
 		}
 	})
 
+	r.rule("R9", "the 500 of a failing error handler is really set: the three delivery sites answer a failing handler through SendStatus(500), so SendStatus sets the status it is given on every path to its return — not only when the response has no body yet (a handler that wrote a body and then failed would keep its own status) (E1 must-pass-through)", func() {
+		for _, fn := range []string{"(*DefaultCtx).SendStatus"} {
+			f := r.Fn("", fn)
+			var status *ssa.Parameter
+			for _, p := range f.Params {
+				if b, ok := p.Type().Underlying().(*types.Basic); ok && b.Info()&types.IsInteger != 0 {
+					status = p
+				}
+			}
+			r.need(status != nil, "SendStatus(status int)")
+			sets := func(in ssa.Instruction) bool {
+				ci, ok := in.(ssa.CallInstruction)
+				if !ok {
+					return false
+				}
+				cn := calleeName(ci.Common())
+				if !(strings.HasSuffix(cn, ").Status") || strings.HasSuffix(cn, ").SetStatusCode") || strings.HasSuffix(cn, ").setStatus")) {
+					return false
+				}
+				for _, a := range ci.Common().Args {
+					if stripValue(a) == ssa.Value(status) {
+						return true
+					}
+				}
+				return false
+			}
+			n := len(instrsWhere(f, sets))
+			r.need(n >= 1, "SendStatus sets the status it is given")
+			path, hit := reach(entryOf(f), isReturn, nil, sets)
+			r.check(hit == nil, "SendStatus:status-set-on-every-path", r.fpos(f), "every path through SendStatus sets the given status",
+				"SendStatus can return without having set the status ("+pathString(r.P, path)+"): an error handler that wrote a body and then returned an error leaves its own status on the response instead of the 500 the three delivery sites ask for")
+		}
+	})
+
 	r.rule("R8", "the error-handler selection folds letter case the way the router does: every case fold applied in ErrorHandler (to the request path and to the mount prefixes) is the function the router applies to detection paths and patterns (the ASCII-only utils.ToLower) — a Unicode-aware fold maps `/K` (Kelvin sign) to `/k`, a path no route of the sub-app can match is then counted as below its mount point (E5, sibling agreement)", func() {
 		isFold := func(n string) bool {
 			return strings.Contains(n, ".ToLower") || strings.Contains(n, ".ToUpper") || n == "strings.EqualFold" || strings.HasSuffix(n, ".EqualFold")
